@@ -114,3 +114,59 @@ class Ctx:
 
     def body(self, path):
         return self.f.body(path)
+
+
+# ---------------------------------------------------------------- shared helpers for table-like rules
+
+REC_COUNT = [0]
+
+
+def rec(d, key, good, msg, loc):
+    """Record one obligation in a group dict: a group holds iff all its records hold."""
+    REC_COUNT[0] += 1
+    d.setdefault(key, [True, msg, loc])
+    if not good:
+        d[key] = [False, msg, loc]
+
+
+def emit(d):
+    return [ok(k) if g else bad(k, m, l) for k, (g, m, l) in sorted(d.items())]
+
+
+class PathCheck:
+    """Fail closed: a path of the analysed function that none of the rule's clauses recognised is reported.
+    Use `with PathCheck(d, key, body, path, desc): ...`; call .skip() for paths that are deliberately out of scope."""
+
+    def __init__(self, d, key, body, path, desc=""):
+        self.d, self.key, self.body, self.path, self.desc = d, key, body, path, desc
+        self.skipped = False
+
+    def skip(self):
+        self.skipped = True
+
+    def __enter__(self):
+        self.n0 = REC_COUNT[0]
+        return self
+
+    def __exit__(self, et, ev, tb):
+        if et is None and not self.skipped and REC_COUNT[0] == self.n0:
+            p = self.path
+            loc = self.body.loc(p.blocks[-1]) if p.blocks else self.body.loc()
+            rec(self.d, self.key + "|unrecognised-path", False, "%s has a path the rule's table does not recognise (restructured or changed code; re-audit): %s" % (self.body.path, self.desc[:300]), loc)
+        return False
+
+
+def checked(d, key, body, paths, only=None):
+    """Iterate paths; after the loop body ran for a path, report the path if no clause recorded anything for it
+    (fail closed). `only(p)` restricts the obligation to relevant paths; set p.skip = True to waive one."""
+    for p in paths:
+        n0 = REC_COUNT[0]
+        p.skip = False
+        yield p
+        if REC_COUNT[0] == n0 and not p.skip and (only is None or only(p)):
+            loc = body.loc(p.blocks[-1]) if p.blocks else body.loc()
+            try:
+                desc = p.describe()
+            except Exception:
+                desc = ""
+            rec(d, key + "|unrecognised-path", False, "%s has a path that none of the rule's clauses recognises (restructured or changed code; re-audit): %s" % (body.path, desc[:260]), loc)
